@@ -7,7 +7,7 @@ package main
 //     fall-back routes; stops with parents) - EVERY combination of rotations at EVERY library
 //     `range` over a map (the runtime's random start is a choice point) must give a dump
 //     identical, order included, to the parse with all starts at 0.
-// (2) histories: one shared options / extension object, an alphabet of 7 feeds (two with
+// (2) histories: one shared options / extension object, an alphabet of 8 feeds (two with
 //     elevator alerts sharing groups, two NYCT trip feeds, a mixed one, an empty one), EVERY
 //     sequence of <= 3 calls (thorough <= 4) for every bundled configuration (caller's options
 //     with nil Extension, 4 nycttrips, 24 nyctalerts): the last call's result must equal the
@@ -380,21 +380,83 @@ func c06FeedsWith(startDate, idSuffix string) [][]byte {
 		}
 		return &gtfsrt.FeedEntity{Id: sp(id), TripUpdate: &gtfsrt.TripUpdate{Trip: td, StopTimeUpdate: []*gtfsrt.TripUpdate_StopTimeUpdate{{StopSequence: u32p(3)}, {StopId: sp("M16N")}}}}
 	}
+	// everything at once: every optional field of trip updates, positions and alerts; alerts whose
+	// selectors name routes through trip descriptors (both directions, one direction, next to an
+	// explicit route), identifiable trips, agencies and route types; vehicles known by label only
+	// and without any descriptor
+	sink := func() []byte {
+		u0, u1 := uint32(0), uint32(1)
+		lat, lon, brg, spd := float32(40.7), float32(-73.9), float32(181.5), float32(9.5)
+		odo := 12345.5
+		td := func(id string) *gtfsrt.TripDescriptor {
+			return &gtfsrt.TripDescriptor{TripId: sp(id + idSuffix), RouteId: sp("K"), DirectionId: &u1, StartTime: sp("25:10:00"), StartDate: sp(startDate), ScheduleRelationship: gtfsrt.TripDescriptor_ADDED.Enum()}
+		}
+		ev := func(t int64, d int32, un int32) *gtfsrt.TripUpdate_StopTimeEvent {
+			return &gtfsrt.TripUpdate_StopTimeEvent{Time: cp2(t), Delay: cp32(d), Uncertainty: cp32(un)}
+		}
+		tr := func(s string) *gtfsrt.TranslatedString {
+			return &gtfsrt.TranslatedString{Translation: []*gtfsrt.TranslatedString_Translation{{Text: sp(s), Language: sp("en")}, {Text: sp(s + " (es)"), Language: sp("es")}}}
+		}
+		routeOnly := func(route string, dir *uint32) *gtfsrt.EntitySelector {
+			return &gtfsrt.EntitySelector{StopId: sp("KS-" + route), Trip: &gtfsrt.TripDescriptor{RouteId: sp(route), DirectionId: dir}}
+		}
+		return mk(
+			&gtfsrt.FeedEntity{Id: sp("k-tu"), TripUpdate: &gtfsrt.TripUpdate{Trip: td("K1"), Vehicle: &gtfsrt.VehicleDescriptor{Id: sp("KV1" + idSuffix), Label: sp("kl"), LicensePlate: sp("kp")},
+				StopTimeUpdate: []*gtfsrt.TripUpdate_StopTimeUpdate{
+					{StopSequence: &u1, StopId: sp("KS1"), Arrival: ev(int64(ts)+60, 5, 1), Departure: ev(int64(ts)+90, -5, 2), ScheduleRelationship: gtfsrt.TripUpdate_StopTimeUpdate_SCHEDULED.Enum()},
+					{StopSequence: &u0, Arrival: &gtfsrt.TripUpdate_StopTimeEvent{Delay: cp32(30)}, ScheduleRelationship: gtfsrt.TripUpdate_StopTimeUpdate_SKIPPED.Enum()},
+					{StopId: sp("KS3"), ScheduleRelationship: gtfsrt.TripUpdate_StopTimeUpdate_NO_DATA.Enum()}}}},
+			&gtfsrt.FeedEntity{Id: sp("k-vp"), Vehicle: &gtfsrt.VehiclePosition{Trip: td("K1"), Vehicle: &gtfsrt.VehicleDescriptor{Id: sp("KV1" + idSuffix), Label: sp("kl"), LicensePlate: sp("kp")},
+				Position: &gtfsrt.Position{Latitude: &lat, Longitude: &lon, Bearing: &brg, Odometer: &odo, Speed: &spd}, CurrentStopSequence: &u1, StopId: sp("KS1"),
+				CurrentStatus: gtfsrt.VehiclePosition_STOPPED_AT.Enum(), Timestamp: u64p(ts + 5), CongestionLevel: gtfsrt.VehiclePosition_STOP_AND_GO.Enum(),
+				OccupancyStatus: gtfsrt.VehiclePosition_STANDING_ROOM_ONLY.Enum(), OccupancyPercentage: &u1}},
+			&gtfsrt.FeedEntity{Id: sp("k-label-b"), Vehicle: &gtfsrt.VehiclePosition{Vehicle: &gtfsrt.VehicleDescriptor{Label: sp("label B")}, StopId: sp("KSB")}},
+			&gtfsrt.FeedEntity{Id: sp("k-label-a"), Vehicle: &gtfsrt.VehiclePosition{Vehicle: &gtfsrt.VehicleDescriptor{Label: sp("label A"), LicensePlate: sp("plate")}, StopId: sp("KSA")}},
+			&gtfsrt.FeedEntity{Id: sp("k-bare-1"), Vehicle: &gtfsrt.VehiclePosition{StopId: sp("KSX"), Trip: td("K2")}},
+			&gtfsrt.FeedEntity{Id: sp("k-bare-2"), Vehicle: &gtfsrt.VehiclePosition{StopId: sp("KSY")}},
+			&gtfsrt.FeedEntity{Id: sp("k-alert"), Alert: &gtfsrt.Alert{
+				ActivePeriod: []*gtfsrt.TimeRange{{Start: u64p(ts), End: u64p(ts + 3600)}, {Start: u64p(ts + 7200)}, {End: u64p(ts + 9000)}},
+				InformedEntity: []*gtfsrt.EntitySelector{{AgencyId: sp("KA")}, {RouteId: sp("KR1"), DirectionId: &u0}, {RouteType: cp32(1)}, {StopId: sp("KS1")},
+					routeOnly("KR2", &u0), routeOnly("KR2", &u1), routeOnly("KR3", &u1), routeOnly("KR1", nil), routeOnly("KR4", nil),
+					{Trip: td("K1")}, {Trip: td("K9")}, {Trip: &gtfsrt.TripDescriptor{RouteId: sp("KR5"), DirectionId: &u0, StartTime: sp("10:00:00"), StartDate: sp(startDate)}}, {RouteType: cp32(99)}},
+				Cause: gtfsrt.Alert_CONSTRUCTION.Enum(), Effect: gtfsrt.Alert_NO_EFFECT.Enum(), Url: tr("http://example.com/k"), HeaderText: tr("k header"), DescriptionText: tr("k description")}},
+			&gtfsrt.FeedEntity{Id: sp("k-alert-2"), Alert: &gtfsrt.Alert{InformedEntity: []*gtfsrt.EntitySelector{routeOnly("KR2", &u1), {RouteId: sp("KR3")}, routeOnly("KR3", &u0)}}},
+		)
+	}
+	more := func() []*gtfsrt.FeedEntity {
+		yes := true
+		td := &gtfsrt.TripDescriptor{TripId: sp("074000_M..N20R" + idSuffix), RouteId: sp("M"), StartDate: sp(startDate)}
+		proto.SetExtension(td, gtfsrt.E_NyctTripDescriptor, &gtfsrt.NyctTripDescriptor{TrainId: sp("train o7"), IsAssigned: &yes, Direction: gtfsrt.NyctTripDescriptor_NORTH.Enum()})
+		u1 := &gtfsrt.TripUpdate_StopTimeUpdate{StopId: sp("M08N")} // no times at the first stop; not an affected platform
+		proto.SetExtension(u1, gtfsrt.E_NyctStopTimeUpdate, &gtfsrt.NyctStopTimeUpdate{ScheduledTrack: sp("1"), ActualTrack: sp("2")})
+		u2 := &gtfsrt.TripUpdate_StopTimeUpdate{StopId: sp("M11X"), Arrival: &gtfsrt.TripUpdate_StopTimeEvent{Time: cp2(int64(ts) + 100)}}
+		u3 := &gtfsrt.TripUpdate_StopTimeUpdate{StopId: sp("M1"), Arrival: &gtfsrt.TripUpdate_StopTimeEvent{Time: cp2(int64(ts) + 200)}}
+		td2 := proto.Clone(td).(*gtfsrt.TripDescriptor)
+		td2.TripId = sp("075000_M..S20R" + idSuffix)
+		no := false
+		proto.SetExtension(td2, gtfsrt.E_NyctTripDescriptor, &gtfsrt.NyctTripDescriptor{TrainId: sp("train o8"), IsAssigned: &no, Direction: gtfsrt.NyctTripDescriptor_SOUTH.Enum()})
+		return []*gtfsrt.FeedEntity{
+			{Id: sp("o7"), TripUpdate: &gtfsrt.TripUpdate{Trip: td, Vehicle: &gtfsrt.VehicleDescriptor{Id: sp("existing"), Label: sp("existing label")}, StopTimeUpdate: []*gtfsrt.TripUpdate_StopTimeUpdate{u1, u2, u3}}},
+			{Id: sp("o7v"), Vehicle: &gtfsrt.VehiclePosition{Trip: td, Vehicle: &gtfsrt.VehicleDescriptor{Id: sp("existing")}, StopId: sp("M08N")}},
+			{Id: sp("o8"), TripUpdate: &gtfsrt.TripUpdate{Trip: td2, StopTimeUpdate: []*gtfsrt.TripUpdate_StopTimeUpdate{{StopId: sp("M12S")}}}},
+		}
+	}
 	return [][]byte{
 		mk(),
 		mk(elevEntity(elevAlert{"A27", "N", "1"}, 0), elevEntity(elevAlert{"A27", "S", "1"}, 1)),
 		mk(elevEntity(elevAlert{"A27", "S", "1"}, 0), elevEntity(elevAlert{"E01", "N", "1"}, 1), plainAlertEntity("plain-1")),
 		mk(nyctTU("e1", "063000_M..S20R", "M", true, "M11N", "M12N"), nyctTU("e2", "064000_M..S20R", "M", false, "M16S")),
 		mk(nyctTU("e1", "070000_J..N20R", "J", false, "M11N"), &gtfsrt.FeedEntity{Id: sp("vp"), Vehicle: &gtfsrt.VehiclePosition{Vehicle: &gtfsrt.VehicleDescriptor{Id: sp("V1")}, Trip: &gtfsrt.TripDescriptor{TripId: sp("plain")}}}),
-		mk(merc, nyctTU("e1", "063000_M..S20R", "M", true, "M11N"), elevEntity(elevAlert{"A27", "N", "1"}, 0)),
+		mk(merc, c17MercuryEntity(nil, mercurySpec{prio1: 2, prio2: -2, prefix: 1, hasExt: true}), nyctTU("e1", "063000_M..S20R", "M", true, "M11N"), elevEntity(elevAlert{"A27", "N", "1"}, 0), elevEntity(elevAlert{"A27", "S", "1"}, 1), elevEntity(elevAlert{"A27", "", "1"}, 2)),
 		mk(odd("o1", "071000_M..N20R", false), odd("o2", "071000_M..N20R", true), odd("o3", "072000_M..N20R", false), nyctTU("o4", "073000_M..S20R", "M", false),
 			// NYCT descriptors on ids that are NOT of the NYCT form but share their first six characters with
 			// well-formed ids of the other feeds
-			nyctTU("o5", "063000_M.S20R", "M", true, "M11N"), nyctTU("o6", "070000_J..N20R-2", "J", false, "M12N")),
+			nyctTU("o5", "063000_M.S20R", "M", true, "M11N"), nyctTU("o6", "070000_J..N20R-2", "J", false, "M12N"), more()[0], more()[1], more()[2]),
+		sink(),
 	}
 }
 
-var c06FeedNames = []string{"empty", "elevators-1", "elevators-2", "nyct-trips-1", "nyct-trips-2", "mixed", "nyct-oddities"}
+var c06FeedNames = []string{"empty", "elevators-1", "elevators-2", "nyct-trips-1", "nyct-trips-2", "mixed", "nyct-oddities", "kitchen-sink"}
 
 type rtConfig struct {
 	name   string
@@ -659,7 +721,7 @@ func init() {
 	register(&Check{
 		ID:    "C06",
 		Level: "model_checking",
-		Rule: "(1) every combination of iteration starts at every library map range (choice points owned through the runtime overlay) for a static archive with 3 services/3 shapes/3 trips/3 sibling stops and a realtime message with 3 id-bearing vehicles, 3 trips and an alert with 3 fall-back routes; (2) all call sequences of <= 3 (thorough <= 5) over 7 feeds on ONE shared options/extension object - whose Timezone field the caller may reassign between calls - for each of 30 configurations (nil Extension, explicit no-op, 4 nycttrips with and without Timezone, 24 nyctalerts), and all sequences of <= 3 static parses over 3 archives x inherit option; (3) relation (bytes, configuration) -> dump over every parse of the run, across worker processes; (4) all histories of <= 3 (thorough 4) calls over {static archive in New_York / Kolkata / an unknown zone, realtime feed under New_York / UTC / London / two fixed zones both named EST} each executed in its own pristine process and compared call by call with single-call pristine processes; " +
+		Rule: "(1) every combination of iteration starts at every library map range (choice points owned through the runtime overlay) for a static archive with 3 services/3 shapes/3 trips/3 sibling stops and a realtime message with 3 id-bearing vehicles, 3 trips and an alert with 3 fall-back routes; (2) all call sequences of <= 3 (thorough <= 5) over 8 feeds on ONE shared options/extension object - whose Timezone field the caller may reassign between calls - for each of 30 configurations (nil Extension, explicit no-op, 4 nycttrips with and without Timezone, 24 nyctalerts), and all sequences of <= 3 static parses over 3 archives x inherit option; (3) relation (bytes, configuration) -> dump over every parse of the run, across worker processes; (4) all histories of <= 3 (thorough 4) calls over {static archive in New_York / Kolkata / an unknown zone, realtime feed under New_York / UTC / London / two fixed zones both named EST} each executed in its own pristine process and compared call by call with single-call pristine processes; " +
 			"(5) the same archive / message x 30 configurations parsed under 6 wall clocks (real, 1970, around the first stop time of unassigned NYCT trips, 2100; headers with / without / zero timestamp): identical dumps; the map-order archive also with a 3-cycle, a 2-cycle and a self-parent among its stops; (6) rejected inputs (truncated, HTML, missing required field, stray bytes) with 0 / 1 / 64 bytes of spare capacity: buffer unchanged up to its capacity; " +
 			"non-trivial = distinct histories of >= 2 calls or inputs with a >= 3-entry library map; oracle = differential (rotated vs. fixed order, reused vs. fresh object) with content and order compared",
 		Assumptions: []string{"library maps are single-bucket (<= 8 entries) in these inputs, so rotations are all achievable orders; uncontrolled_maps counts any exception", "process-level state (package variables) is exercised by running histories in 16 separate worker processes that must all agree"},
